@@ -23,6 +23,7 @@ EXPLANATION = (
     "and session metadata is inert without a provider (every provider look-up gated by truthiness, = R13.2); R05.4 the T-SQL splitter "
     "returns one entry per statement segment, in order, and caches exactly those segments. Does not decide: lexing of semicolons in "
     "literals/comments (sqlparse) and T-SQL batch boundaries (sqlfluff grammar)."
+    ' R05.5 (= R10.11 on the evaluation routine): the statement list and the results are assigned on every path of a run.'
 )
 RULE_TEXT = "one obligation per store/iteration/append of the statement list, per skip path of split(), per constructor site of extractors/handlers"
 
@@ -153,50 +154,90 @@ def rules(ctx: Ctx) -> None:
     unmodified = u(comp.elt) in (f"{piece}.value", f"str({piece})")
     ctx.ob("R05.2", "split:piece-appended-unmodified", unmodified, loc(split.mod, comp), f"`{u(comp.elt)}` keeps the piece's text unmodified")
 
-    first_names: set[str] = set()
+    first_names: set[tuple[str, str]] = set()
 
-    def atom_of(e: ast.AST):
-        """-> (atom, polarity) or None.  Atoms: F (first non-comment token exists), P (its type is Punctuation), S (its text is ';')."""
+    def atom_of(e: ast.AST, fn: Fn = None, pc: str = None):
+        """-> (atom, polarity) or None.  Atoms: F (first non-comment token exists), P (its type is Punctuation), S (its text is ';').
+        `fn` / `pc`: the function the expression stands in and its name for the piece (split itself, or a predicate it calls with the piece)."""
+        fn = fn or split
+        pc = pc or piece
         if isinstance(e, ast.NamedExpr):
-            r_ = atom_of(e.value)
+            r_ = atom_of(e.value, fn, pc)
             if r_ == ("F", True):
-                first_names.add(u(e.target))
+                first_names.add((fn.qual, u(e.target)))
             return r_
         if isinstance(e, ast.Compare) and len(e.ops) == 1 and isinstance(e.ops[0], (ast.Is, ast.IsNot)) and isinstance(e.comparators[0], ast.Constant) and e.comparators[0].value is None:
-            r_ = atom_of(e.left)
+            r_ = atom_of(e.left, fn, pc)
             return (r_[0], r_[1] == isinstance(e.ops[0], ast.IsNot)) if r_ and r_[0] == "F" else None
-        if isinstance(e, ast.Call) and isinstance(e.func, ast.Attribute) and e.func.attr == "token_first" and u(e.func.value) == piece:
-            kw = {k.arg: prog.try_fold(k.value, split.mod, split) for k in e.keywords}
+        if isinstance(e, ast.Call) and isinstance(e.func, ast.Attribute) and e.func.attr == "token_first" and u(e.func.value) == pc:
+            kw = {k.arg: prog.try_fold(k.value, fn.mod, fn) for k in e.keywords}
             return ("F", True) if kw.get("skip_cm") is True else None
         if isinstance(e, ast.Name):
-            srcs_ = [v for v in prog.value_sources(split, e) if not (isinstance(v, ast.Name) and v.id == e.id)]
-            if e.id in first_names or (len(srcs_) == 1 and atom_of(srcs_[0]) == ("F", True)):
-                first_names.add(e.id)
+            srcs_ = [v for v in prog.value_sources(fn, e) if not (isinstance(v, ast.Name) and v.id == e.id)]
+            if (fn.qual, e.id) in first_names or (len(srcs_) == 1 and atom_of(srcs_[0], fn, pc) == ("F", True)):
+                first_names.add((fn.qual, e.id))
                 return ("F", True)
             return None
         if isinstance(e, ast.Compare) and len(e.ops) == 1 and isinstance(e.ops[0], (ast.Eq, ast.NotEq, ast.Is, ast.IsNot)):
             pol = isinstance(e.ops[0], (ast.Eq, ast.Is))
             l_, r2 = e.left, e.comparators[0]
             for x, y in ((l_, r2), (r2, l_)):
-                if isinstance(x, ast.Attribute) and isinstance(x.value, ast.Name) and atom_of(x.value) == ("F", True):
+                if isinstance(x, ast.Attribute) and isinstance(x.value, ast.Name) and atom_of(x.value, fn, pc) == ("F", True):
                     if x.attr == "ttype" and u(y).split(".")[-1] == "Punctuation":
                         return ("P", pol)
-                    if x.attr in ("value", "normalized") and prog.try_fold(y, split.mod, split) == ";":
+                    if x.attr in ("value", "normalized") and prog.try_fold(y, fn.mod, fn) == ";":
                         return ("S", pol)
         return None
 
     unknown: list[str] = []
 
-    def ev(e: ast.AST, val: dict) -> bool:
+    def run(stmts: list, val: dict, fn: Fn, pc: str, depth: int):
+        """truth value a predicate function returns under the valuation (None: falls off the end of the block)"""
+        for st in stmts:
+            if isinstance(st, ast.Expr) and isinstance(st.value, ast.Constant):
+                continue
+            if isinstance(st, (ast.Assign, ast.AnnAssign)):
+                continue  # locals are followed by value flow
+            if isinstance(st, ast.If):
+                r_ = run(st.body if ev(st.test, val, fn, pc, depth) else st.orelse, val, fn, pc, depth)
+                if r_ is not None:
+                    return r_
+                continue
+            if isinstance(st, ast.Return):
+                if st.value is None or (isinstance(st.value, ast.Constant) and st.value.value is None):
+                    return False
+                if isinstance(st.value, ast.Constant) and isinstance(st.value.value, bool):
+                    return st.value.value
+                return ev(st.value, val, fn, pc, depth)
+            unknown.append(u(st)[:60])
+            return True
+        return None
+
+    def ev(e: ast.AST, val: dict, fn: Fn = None, pc: str = None, depth: int = 0) -> bool:
+        fn = fn or split
+        pc = pc or piece
         if isinstance(e, ast.BoolOp):
-            rs = [ev(v, val) for v in e.values]
+            rs = [ev(v, val, fn, pc, depth) for v in e.values]
             return all(rs) if isinstance(e.op, ast.And) else any(rs)
         if isinstance(e, ast.UnaryOp) and isinstance(e.op, ast.Not):
-            return not ev(e.operand, val)
-        if isinstance(e, ast.Call) and isinstance(e.func, ast.Attribute) and e.func.attr == "match" and isinstance(e.func.value, ast.Name) and atom_of(e.func.value) == ("F", True) \
-                and len(e.args) == 2 and u(e.args[0]).split(".")[-1] == "Punctuation" and prog.try_fold(e.args[1], split.mod, split) == ";":
+            return not ev(e.operand, val, fn, pc, depth)
+        if isinstance(e, ast.Constant) and isinstance(e.value, bool):
+            return e.value
+        if isinstance(e, ast.Call) and isinstance(e.func, ast.Attribute) and e.func.attr == "match" and isinstance(e.func.value, ast.Name) and atom_of(e.func.value, fn, pc) == ("F", True) \
+                and len(e.args) == 2 and u(e.args[0]).split(".")[-1] == "Punctuation" and prog.try_fold(e.args[1], fn.mod, fn) == ";":
             return val["P"] and val["S"]
-        at = atom_of(e)
+        # a predicate of the package applied to the piece: its body decides
+        if isinstance(e, ast.Call) and len(e.args) == 1 and not e.keywords and u(e.args[0]) == pc and depth < 3:
+            cal = [c_ for c_ in prog.resolve_call(e, fn) if isinstance(c_, Fn)]
+            if len(cal) == 1 and len([p_ for p_ in cal[0].params() if p_ not in ("self", "cls")]) == 1 and isinstance(cal[0].node, (ast.FunctionDef, ast.Lambda)):
+                g_ = cal[0]
+                ctx.touched(g_)
+                gp = [p_ for p_ in g_.params() if p_ not in ("self", "cls")][0]
+                if isinstance(g_.node, ast.Lambda):
+                    return ev(g_.node.body, val, g_, gp, depth + 1)
+                r_ = run(g_.node.body, val, g_, gp, depth + 1)
+                return bool(r_)
+        at = atom_of(e, fn, pc)
         if at is None:
             unknown.append(u(e)[:60])
             return True
